@@ -422,4 +422,640 @@ theorem reduceCat_sound (e : Env) (rtl : Bool) (o : Nat) (cs : List RNode) (st :
     · rw [m_mkCat]
       exact ((catEq_joinStrings e rtl _).trans (catEq_coalesce e rtl _)) st
 
+/-! ## alternations of nodes
+
+`h = false`: the same ordered successes; `h = true`: the same FIRST success (all that the enclosing
+Atomic node keeps — prefix factoring inside an atomic group makes the new inner alternation atomic). -/
+
+def LRel (h : Bool) (l l' : List St) : Prop := if h then l.head? = l'.head? else l = l'
+
+theorem LRel.refl (h : Bool) (l : List St) : LRel h l l := by cases h <;> simp [LRel]
+theorem LRel.of_eq {h : Bool} {l l' : List St} (he : l = l') : LRel h l l' := by subst he; exact LRel.refl h l
+theorem LRel.symm {h : Bool} {l l' : List St} (h1 : LRel h l l') : LRel h l' l := by
+  cases h <;> simp_all [LRel]
+theorem LRel.trans {h : Bool} {a b c : List St} (h1 : LRel h a b) (h2 : LRel h b c) : LRel h a c := by
+  cases h <;> simp_all [LRel]
+theorem LRel.append {h : Bool} {a a' b b' : List St} (h1 : LRel h a a') (h2 : LRel h b b') : LRel h (a ++ b) (a' ++ b') := by
+  cases h
+  · simp_all [LRel]
+  · simp only [LRel, if_true] at *; exact head?_append_congr h1 h2
+theorem LRel.head {h : Bool} {a b : List St} (h1 : LRel h a b) : a.head? = b.head? := by
+  cases h <;> simp_all [LRel]
+
+/-- node-level relation -/
+def NEq (h : Bool) (e : Env) (rtl : Bool) (n n' : RNode) : Prop :=
+  ∀ st, LRel h (m e (toPat rtl n) rtl st) (m e (toPat rtl n') rtl st)
+
+theorem NEq.refl (h : Bool) (e : Env) (rtl : Bool) (n : RNode) : NEq h e rtl n n := fun _ => LRel.refl _ _
+theorem NEq.trans {h : Bool} {e : Env} {rtl : Bool} {a b c : RNode} (h1 : NEq h e rtl a b) (h2 : NEq h e rtl b c) :
+    NEq h e rtl a c := fun st => (h1 st).trans (h2 st)
+theorem NEq.of_eq {h : Bool} {e : Env} {rtl : Bool} {a b : RNode} (h1 : NEq false e rtl a b) : NEq h e rtl a b :=
+  fun st => LRel.of_eq (by simpa [LRel] using h1 st)
+theorem NEq.eq {e : Env} {rtl : Bool} {a b : RNode} (h1 : NEq false e rtl a b) (st : St) :
+    m e (toPat rtl a) rtl st = m e (toPat rtl b) rtl st := by simpa [LRel] using h1 st
+theorem NEq.headEq {h : Bool} {e : Env} {rtl : Bool} {a b : RNode} (h1 : NEq h e rtl a b) :
+    HeadEq e rtl (toPat rtl a) (toPat rtl b) := fun st => (h1 st).head
+
+/-- the successes of an Alternate with children `cs` -/
+def mA (e : Env) (rtl : Bool) (cs : List RNode) (st : St) : List St := ma e rtl (toPats rtl cs) st
+
+theorem m_alt (e : Env) (rtl : Bool) (o : Nat) (cs : List RNode) (st : St) :
+    m e (toPat rtl (.alt o cs)) rtl st = mA e rtl cs st := by
+  simp [toPat, mA, m_altOf']
+
+theorem mA_append (e : Env) (rtl : Bool) (a b : List RNode) (st : St) : mA e rtl (a ++ b) st = mA e rtl a st ++ mA e rtl b st := by
+  simp [mA, toPats_append, ma_append]
+
+theorem mA_cons (e : Env) (rtl : Bool) (a : RNode) (b : List RNode) (st : St) :
+    mA e rtl (a :: b) st = m e (toPat rtl a) rtl st ++ mA e rtl b st := by
+  simp [mA, toPats, ma_cons]
+
+theorem mA_nil (e : Env) (rtl : Bool) (st : St) : mA e rtl [] st = [] := rfl
+
+theorem mA_single (e : Env) (rtl : Bool) (a : RNode) (st : St) : mA e rtl [a] st = m e (toPat rtl a) rtl st := by
+  simp [mA_cons, mA_nil]
+
+theorem m_mkAlt (e : Env) (rtl : Bool) (o : Nat) (cs : List RNode) (st : St) :
+    m e (toPat rtl (mkAlt o cs)) rtl st = mA e rtl cs st := by
+  match cs with
+  | [] => simp [mkAlt, toPat, m, mA_nil]
+  | [c] => simp [mkAlt, mA_single]
+  | a :: b :: rest => simp [mkAlt, m_alt]
+
+def AEq (h : Bool) (e : Env) (rtl : Bool) (cs cs' : List RNode) : Prop := ∀ st, LRel h (mA e rtl cs st) (mA e rtl cs' st)
+
+theorem AEq.refl (h : Bool) (e : Env) (rtl : Bool) (cs : List RNode) : AEq h e rtl cs cs := fun _ => LRel.refl _ _
+theorem AEq.trans {h : Bool} {e : Env} {rtl : Bool} {a b c : List RNode} (h1 : AEq h e rtl a b) (h2 : AEq h e rtl b c) :
+    AEq h e rtl a c := fun st => (h1 st).trans (h2 st)
+theorem AEq.symm {h : Bool} {e : Env} {rtl : Bool} {a b : List RNode} (h1 : AEq h e rtl a b) : AEq h e rtl b a :=
+  fun st => (h1 st).symm
+theorem AEq.append {h : Bool} {e : Env} {rtl : Bool} {a a' b b' : List RNode} (h1 : AEq h e rtl a a') (h2 : AEq h e rtl b b') :
+    AEq h e rtl (a ++ b) (a' ++ b') := by
+  intro st; rw [mA_append, mA_append]; exact (h1 st).append (h2 st)
+theorem AEq.cons {h : Bool} {e : Env} {rtl : Bool} (x : RNode) {b b' : List RNode} (h2 : AEq h e rtl b b') :
+    AEq h e rtl (x :: b) (x :: b') := AEq.append (a := [x]) (AEq.refl h e rtl [x]) h2
+theorem AEq.of_eq {h : Bool} {e : Env} {rtl : Bool} {a b : List RNode} (h1 : AEq false e rtl a b) : AEq h e rtl a b :=
+  fun st => LRel.of_eq (by simpa [LRel] using h1 st)
+theorem AEq.of_node {h : Bool} {e : Env} {rtl : Bool} {x y : RNode} (h1 : NEq h e rtl x y) : AEq h e rtl [x] [y] := by
+  intro st; rw [mA_single, mA_single]; exact h1 st
+
+theorem aEq_nothing (h : Bool) (e : Env) (rtl : Bool) : AEq h e rtl [.nothing] [] := by
+  intro st; rw [mA_single, mA_nil]; simp [toPat, m]; exact LRel.refl _ _
+
+theorem aEq_splice (h : Bool) (e : Env) (rtl : Bool) (o : Nat) (cs : List RNode) : AEq h e rtl [.alt o cs] cs := by
+  intro st; rw [mA_single, m_alt]; exact LRel.refl _ _
+
+mutual
+theorem aEq_flatAlt (h : Bool) (e : Env) (rtl : Bool) : ∀ (n : RNode), AEq h e rtl (flatAlt n) [n]
+  | .alt o cs => by
+    rw [flatAlt]
+    exact (aEq_flatAlts h e rtl cs).trans (aEq_splice h e rtl o cs).symm
+  | .chr .. | .cloop .. | .multi .. | .empty | .nothing | .bump | .anchor .. | .ref .. | .cat .. | .loop .. | .cap ..
+  | .look .. | .atomic .. | .refCond .. | .exprCond .. => by simp only [flatAlt]; exact AEq.refl h e rtl _
+theorem aEq_flatAlts (h : Bool) (e : Env) (rtl : Bool) : ∀ (cs : List RNode), AEq h e rtl (flatAlts cs) cs
+  | [] => by rw [flatAlts]; exact AEq.refl h e rtl _
+  | x :: xs => by
+    rw [flatAlts]
+    exact AEq.append (aEq_flatAlt h e rtl x) (aEq_flatAlts h e rtl xs)
+end
+
+/-- `removeRedundantEmptiesAndNothings`, proved variant: only Nothing goes -/
+theorem aEq_removeEmptiesGo (h : Bool) (e : Env) (rtl : Bool) : ∀ (cs : List RNode) (seen : Bool),
+    AEq h e rtl (removeEmptiesGo false seen cs) cs
+  | [], _ => by simp [removeEmptiesGo]; exact AEq.refl h e rtl _
+  | c :: cs, seen => by
+    cases c <;> simp only [removeEmptiesGo, Bool.and_false, Bool.false_eq_true, if_false]
+    case nothing =>
+      exact (aEq_removeEmptiesGo h e rtl cs seen).trans
+        (AEq.append (a := []) (a' := [.nothing]) (aEq_nothing h e rtl).symm (AEq.refl h e rtl cs))
+    all_goals exact AEq.cons _ (aEq_removeEmptiesGo h e rtl cs _)
+
+/-! ## prefix factoring -/
+
+/-- what `reduce()` has to satisfy: with a non-Atomic parent the same successes, with an Atomic parent
+    the same first success -/
+def RedSound (e : Env) (rtl : Bool) (red : Bool → RNode → RNode) : Prop := ∀ pa n, NEq pa e rtl (red pa n) n
+
+theorem flatMap_congr_mem {α β : Type} {l : List α} {f g : α → List β} (h : ∀ x ∈ l, f x = g x) :
+    l.flatMap f = l.flatMap g := by
+  induction l with
+  | nil => rfl
+  | cons x xs ih =>
+    simp only [List.flatMap_cons]
+    rw [h x (by simp), ih (fun y hy => h y (by simp [hy]))]
+
+/-- **the core of both prefix extractions** (left-to-right): every branch of `group` is `X` followed
+    by the branch `g b`, and `X` has at most one success: the alternation of the group is `X` followed by
+    the alternation of the rests -/
+theorem factor_core (e : Env) (X : Pat) (hX : AtMostOne e false X) (group : List RNode) (g : RNode → RNode)
+    (hg : ∀ b ∈ group, ∀ st, m e (toPat false b) false st = m e (.seq X (toPat false (g b))) false st) (st : St) :
+    mA e false group st = m e (.seq X (altOf (toPats false (group.map g)))) false st := by
+  rw [m_seq_ltr]
+  have hL : mA e false group st = group.flatMap (fun b => (m e X false st).flatMap (m e (toPat false (g b)) false)) := by
+    unfold mA ma
+    rw [toPats_eq_map, List.flatMap_map]
+    apply flatMap_congr_mem
+    intro b hb
+    rw [hg b hb st, m_seq_ltr]
+  rw [hL]
+  have hR : ∀ y, m e (altOf (toPats false (group.map g))) false y = group.flatMap (fun b => m e (toPat false (g b)) false y) := by
+    intro y
+    rw [m_altOf', ma, toPats_eq_map, List.map_map, List.flatMap_map]
+    rfl
+  match hm : m e X false st, hX st with
+  | [], _ => simp
+  | [y], _ => simp [hR]
+
+theorem toPat_strNode (rtl : Bool) (o : Nat) (t : List Nat) : toPat rtl (strNode o t) = strPat t := by
+  match t with
+  | [] => simp [strNode, toPat, strPat, seqOf]
+  | [c] => simp [strNode, toPat, CP.pred, strPat, seqOf, lit]
+  | a :: b :: rest => simp [strNode, toPat]
+
+theorem atMostOne_strPat (e : Env) (rtl : Bool) (t : List Nat) : AtMostOne e rtl (strPat t) :=
+  atMostOne_seqOf _ (fun x hx => by
+    obtain ⟨c, _, rfl⟩ := List.mem_map.mp hx
+    exact atMostOne_chr e rtl _)
+
+theorem commonLen_take : ∀ (a b : List Nat), a.take (commonLen a b) = b.take (commonLen a b)
+  | [], _ => by simp [commonLen]
+  | _ :: _, [] => by simp [commonLen]
+  | x :: xs, y :: ys => by
+    simp only [commonLen]
+    split
+    · rename_i hxy; subst hxy; simp [commonLen_take xs ys]
+    · simp
+
+theorem shared_spec (so : Nat) : ∀ (rest : List RNode) (span : List Nat),
+    (shared so span rest).2 <+: span ∧
+      ∀ b ∈ rest.take (shared so span rest).1, ∃ s, startOf b = some (so, s) ∧ (shared so span rest).2 <+: s
+  | [], span => by simp [shared]
+  | b :: bs, span => by
+    simp only [shared]
+    cases hb : startOf b with
+    | none => simp
+    | some os =>
+      obtain ⟨o', s⟩ := os
+      simp only
+      by_cases ho : o' = so
+      · subst ho
+        simp only [ne_eq, not_true_eq_false, if_false]
+        by_cases hc : commonLen span s = 0
+        · simp [hc]
+        · simp only [hc, if_false]
+          have ih := shared_spec o' bs (span.take (commonLen span s))
+          refine ⟨ih.1.trans (List.take_prefix _ _), ?_⟩
+          intro x hx
+          simp only [List.take_succ_cons, List.mem_cons] at hx
+          rcases hx with rfl | hx
+          · refine ⟨s, hb, ih.1.trans ?_⟩
+            rw [commonLen_take]; exact List.take_prefix _ _
+          · exact ih.2 x hx
+      · simp [ho]
+
+/-- `processOneOrMulti`: a branch that starts with the text `pre ++ suf` is `pre` followed by the
+    stripped branch -/
+theorem stripPrefix_sound (e : Env) (b : RNode) (o : Nat) (pre suf : List Nat) (hb : startOf b = some (o, pre ++ suf))
+    (st : St) :
+    m e (toPat false b) false st = m e (.seq (strPat pre) (toPat false (stripPrefix pre.length b))) false st := by
+  have key : ∀ (x : RNode), strOf x = some (o, pre ++ suf) →
+      SeqEq e false [toPat false x] [strPat pre, toPat false (strNode o ((pre ++ suf).drop pre.length))] := by
+    intro x hx
+    rw [toPat_strOf hx, toPat_strNode, List.drop_left]
+    exact (m_strPat_append e false pre suf).symm
+  cases b
+  case cat o' cs =>
+    cases cs with
+    | nil => simp [startOf] at hb
+    | cons c cs =>
+      simp only [startOf] at hb
+      simp only [stripPrefix, hb]
+      have h1 : SeqEq e false ([toPat false c] ++ toPats false cs)
+          ([strPat pre, toPat false (strNode o ((pre ++ suf).drop pre.length))] ++ toPats false cs) :=
+        SeqEq.append (key c hb) (SeqEq.refl e false _)
+      have := h1 st
+      simp only [toPat, toPats, dir, Bool.false_eq_true, if_false]
+      rw [show m e (seqOf (toPat false c :: toPats false cs)) false st = ms e false ([toPat false c] ++ toPats false cs) st from rfl,
+        this]
+      simp only [List.cons_append, List.nil_append]
+      rw [ms_cons]
+  case chr o' p =>
+    simp only [startOf] at hb
+    simp only [stripPrefix, hb]
+    have := key _ hb st
+    rw [ms_single, ms_cons] at this
+    simpa [seqOf] using this
+  case multi o' cs =>
+    simp only [startOf] at hb
+    simp only [stripPrefix, hb]
+    have := key _ hb st
+    rw [ms_single, ms_cons] at this
+    simpa [seqOf] using this
+  all_goals simp [startOf, strOf] at hb
+
+theorem lrel_seq_ltr (e : Env) (h : Bool) (P : Pat) {x x' : Pat}
+    (hx : ∀ st, LRel h (m e x false st) (m e x' false st)) (st : St) :
+    LRel h (m e (.seq P x) false st) (m e (.seq P x') false st) := by
+  cases h with
+  | false =>
+    simp only [LRel, Bool.false_eq_true, if_false] at hx ⊢
+    rw [m_seq_ltr, m_seq_ltr]
+    congr 1; funext y; exact hx y
+  | true =>
+    simp only [LRel, if_true] at hx ⊢
+    exact headEq_seq_ltr P (fun st => hx st) st
+
+theorem aEq_map_pointwise (e : Env) (rtl : Bool) (f g : RNode → RNode) (l : List RNode)
+    (hfg : ∀ b ∈ l, NEq false e rtl (f b) (g b)) : AEq false e rtl (l.map f) (l.map g) := by
+  induction l with
+  | nil => exact AEq.refl _ _ _ _
+  | cons x xs ih =>
+    simp only [List.map_cons]
+    exact AEq.append (a := [f x]) (a' := [g x]) (AEq.of_node (hfg x (by simp))) (ih (fun b hb => hfg b (by simp [hb])))
+
+/-- one extraction: the branches of `group` are replaced by `pre · (alternation of the rests)`, the
+    new alternation being atomic when the parent is -/
+theorem factor_step (e : Env) (red : Bool → RNode → RNode) (hred : RedSound e false red) (pa : Bool)
+    (pre : RNode) (hX : AtMostOne e false (toPat false pre)) (group : List RNode) (g r : RNode → RNode)
+    (hr : ∀ n, NEq false e false (r n) n)
+    (hg : ∀ b ∈ group, ∀ st, m e (toPat false b) false st = m e (.seq (toPat false pre) (toPat false (g b))) false st)
+    (o1 o2 : Nat) :
+    AEq pa e false
+      [red false (.cat o2 [pre,
+        if pa then red false (.atomic (red true (.alt o1 (group.map (fun b => r (g b))))))
+        else red false (.alt o1 (group.map (fun b => r (g b))))])]
+      group := by
+  intro st
+  rw [mA_single, factor_core e _ hX group g hg st]
+  -- the reduced concatenation
+  have h1 := NEq.eq (hred false (.cat o2 [pre,
+        if pa then red false (.atomic (red true (.alt o1 (group.map (fun b => r (g b))))))
+        else red false (.alt o1 (group.map (fun b => r (g b))))])) st
+  rw [h1]
+  simp only [toPat, toPats, dir, Bool.false_eq_true, if_false, seqOf]
+  apply lrel_seq_ltr
+  intro y
+  -- the inner alternation
+  have hb : ∀ y, m e (toPat false (.alt o1 (group.map (fun b => r (g b))))) false y
+      = m e (altOf (toPats false (group.map g))) false y := by
+    intro y
+    rw [m_alt, m_altOf']
+    have := aEq_map_pointwise e false (fun b => r (g b)) g group (fun b _ => hr (g b)) y
+    simpa [LRel, mA] using this
+  cases pa with
+  | false =>
+    simp only [Bool.false_eq_true, if_false]
+    refine LRel.of_eq ?_
+    rw [NEq.eq (hred false _) y, hb y]
+  | true =>
+    simp only [if_true, LRel]
+    rw [NEq.eq (hred false _) y]
+    simp only [toPat]
+    rw [m_atomic, head?_take_one, ← hb y]
+    exact (hred true _ y).head
+
+theorem aEq_factorTextGo (e : Env) (red : Bool → RNode → RNode) (hred : RedSound e false red) (pa : Bool) :
+    ∀ (fuel : Nat) (cs : List RNode), AEq pa e false (factorTextGo red pa fuel cs) cs := by
+  intro fuel
+  induction fuel with
+  | zero => intro cs; simp only [factorTextGo]; exact AEq.refl _ _ _ _
+  | succ fuel ih =>
+    intro cs
+    match cs with
+    | [] => simp only [factorTextGo]; exact AEq.refl _ _ _ _
+    | [x] => simp only [factorTextGo]; exact AEq.refl _ _ _ _
+    | x :: y :: rest =>
+      simp only [factorTextGo]
+      cases hx : startOf x with
+      | none => exact AEq.refl _ _ _ _
+      | some os =>
+        obtain ⟨so, span⟩ := os
+        simp only
+        by_cases hk : (shared so span (y :: rest)).1 = 0
+        · simp only [hk, if_true]
+          exact AEq.cons x (ih (y :: rest))
+        · simp only [hk, if_false]
+          have hsp := shared_spec so (y :: rest) span
+          have hsplit : x :: y :: rest =
+              (x :: (y :: rest).take (shared so span (y :: rest)).1) ++ (y :: rest).drop (shared so span (y :: rest)).1 := by
+            simp [List.take_append_drop]
+          conv => rhs; rw [hsplit]
+          refine AEq.append (a := [_]) ?_ (ih _)
+          have hpre : toPat false (strNode so (shared so span (y :: rest)).2) = strPat (shared so span (y :: rest)).2 :=
+            toPat_strNode false so _
+          refine factor_step e red hred pa (strNode so (shared so span (y :: rest)).2)
+            (by rw [hpre]; exact atMostOne_strPat e false _) _ (stripPrefix (shared so span (y :: rest)).2.length)
+            (fun n => red false (red false n)) (fun n => (hred false _).trans (hred false _)) ?_ so so
+          intro b hb st
+          rw [hpre]
+          simp only [List.mem_cons] at hb
+          rcases hb with rfl | hb
+          · obtain ⟨suf, hsuf⟩ := hsp.1
+            exact stripPrefix_sound e b so _ suf (by rw [hsuf]; exact hx) st
+          · obtain ⟨s, hs, ⟨suf, hsuf⟩⟩ := hsp.2 b hb
+            exact stripPrefix_sound e b so _ suf (by rw [hsuf]; exact hs) st
+
+theorem m_factorText (e : Env) (red : Bool → RNode → RNode) (hred : RedSound e false red) (pa : Bool) (o : Nat)
+    (cs : List RNode) : NEq pa e false (factorText red pa o cs) (.alt o cs) := by
+  intro st
+  unfold factorText
+  have h := aEq_factorTextGo e red hred pa cs.length cs st
+  rw [m_alt]
+  split
+  · rename_i c hc
+    rw [hc, mA_single] at h; exact h
+  · rw [m_alt]; exact h
+
+theorem samePrefix_eq {a b : RNode} (h : samePrefix a b = true) : b = a := by
+  cases a <;> cases b <;> simp [samePrefix] at h
+  case chr.chr o p o' p' => obtain ⟨rfl, rfl⟩ := h; rfl
+  case cloop.cloop o k p lo hi o' k' p' lo' hi' => obtain ⟨⟨⟨⟨rfl, rfl⟩, rfl⟩, rfl⟩, rfl⟩ := h; rfl
+
+theorem countSame_spec (req : RNode) : ∀ (rest : List RNode),
+    ∀ b ∈ rest.take (countSame req rest), firstOf b = some req
+  | [] => by simp [countSame]
+  | b :: bs => by
+    simp only [countSame]
+    cases hb : firstOf b with
+    | none => simp
+    | some c =>
+      simp only
+      by_cases hs : samePrefix req c = true
+      · simp only [hs, if_true, List.take_succ_cons, List.mem_cons]
+        intro x hx
+        rcases hx with rfl | hx
+        · rw [hb, samePrefix_eq hs]
+        · exact countSame_spec req bs x hx
+      · simp [hs]
+
+theorem firstOf_sound (e : Env) {b req : RNode} (h : firstOf b = some req) (st : St) :
+    m e (toPat false b) false st = m e (.seq (toPat false req) (toPat false (dropFirst b))) false st := by
+  cases b <;> simp [firstOf] at h
+  case cat o cs =>
+    match cs, h with
+    | c :: d :: ds, h =>
+      simp only [firstOf, Option.some.injEq] at h
+      subst h
+      simp [toPat, toPats, dir, seqOf, dropFirst]
+
+theorem atMostOne_fixedPrefix (e : Env) {req : RNode} (h : fixedPrefix req = true) : AtMostOne e false (toPat false req) := by
+  cases req <;> simp [fixedPrefix] at h
+  case chr o p => exact atMostOne_chr e false _
+  case cloop o k p lo hi =>
+    subst h
+    cases k
+    · exact atMostOne_quant_fixed false lo (atMostOne_chr e false _)
+    · exact atMostOne_quant_fixed true lo (atMostOne_chr e false _)
+    · exact atMostOne_atomic e false _
+
+theorem aEq_factorSetGo (e : Env) (red : Bool → RNode → RNode) (hred : RedSound e false red) (pa : Bool) (o : Nat) :
+    ∀ (fuel : Nat) (cs : List RNode), AEq pa e false (factorSetGo red pa o fuel cs) cs := by
+  intro fuel
+  induction fuel with
+  | zero => intro cs; simp only [factorSetGo]; exact AEq.refl _ _ _ _
+  | succ fuel ih =>
+    intro cs
+    match cs with
+    | [] => simp only [factorSetGo]; exact AEq.refl _ _ _ _
+    | [x] => simp only [factorSetGo]; exact AEq.refl _ _ _ _
+    | x :: y :: rest =>
+      simp only [factorSetGo]
+      cases hx : firstOf x with
+      | none => exact AEq.cons x (ih (y :: rest))
+      | some req =>
+        simp only
+        by_cases hf : fixedPrefix req = true
+        · simp only [hf, Bool.not_true, Bool.false_eq_true, if_false]
+          by_cases hk : countSame req (y :: rest) = 0
+          · simp only [hk, if_true]; exact AEq.cons x (ih (y :: rest))
+          · simp only [hk, if_false]
+            have hsplit : x :: y :: rest =
+                (x :: (y :: rest).take (countSame req (y :: rest))) ++ (y :: rest).drop (countSame req (y :: rest)) := by
+              simp [List.take_append_drop]
+            conv => rhs; rw [hsplit]
+            refine AEq.append (a := [_]) ?_ (ih _)
+            refine factor_step e red hred pa req (atMostOne_fixedPrefix e hf) _ dropFirst (fun n => red false n)
+              (fun n => hred false n) ?_ o o
+            intro b hb st
+            simp only [List.mem_cons] at hb
+            rcases hb with rfl | hb
+            · exact firstOf_sound e hx st
+            · exact firstOf_sound e (countSame_spec req (y :: rest) b hb) st
+        · have : fixedPrefix req = false := by simpa using hf
+          simp only [this, Bool.not_false, if_true]
+          exact AEq.cons x (ih (y :: rest))
+
+theorem m_factorSet (e : Env) (red : Bool → RNode → RNode) (hred : RedSound e false red) (pa : Bool) (o : Nat)
+    (cs : List RNode) : NEq pa e false (factorSet red pa o cs) (.alt o cs) := by
+  intro st
+  unfold factorSet
+  split
+  · rw [m_mkAlt, m_alt]; exact aEq_factorSetGo e red hred pa o cs.length cs st
+  · exact LRel.refl _ _
+
+/-! ## merging One/Set branches (`reduceSingleLetterAndNestedAlternations`), proved variant: disjoint
+category-free classes -/
+
+/-- every rune of the input is a Unicode code point (`≤ unicode.MaxRune`; `canonicalize` drops what
+    lies beyond) -/
+def TextOK (e : Env) : Prop := ∀ r ∈ e.text, r ≤ Class.maxRune
+
+theorem spec_inRanges_eq (rs : List (Nat × Nat)) (r : Nat) : Spec.inRanges rs r = Class.inRanges rs r := by
+  simp [Spec.inRanges, Class.inRanges, Class.inRange]
+
+theorem cls_mem_ranges (e : Env) (neg : Bool) (rs : List (Nat × Nat)) (r : Nat) :
+    Cls.mem e false (.base neg rs []) r = (Class.Flat.memAlg (fun _ _ => false) { ranges := rs, cats := [], neg := neg } r) := by
+  simp [Cls.mem, Class.Flat.memAlg, Class.Flat.pos, spec_inRanges_eq, Spec.inNames]
+
+theorem norm1_cats (hs : Bool) (f : Class.Flat) : (Class.norm1 hs f).cats = f.cats := by
+  unfold Class.norm1
+  repeat' split
+  all_goals rfl
+
+theorem norm2_cats_nil (hs : Bool) (f : Class.Flat) (h : f.cats = []) : (Class.norm2 hs f).cats = [] := by
+  unfold Class.norm2
+  repeat' split
+  all_goals first | exact h | rfl
+
+theorem mergeCls_mem (e : Env) (rs rs' : List (Nat × Nat)) (s' : Cls)
+    (h : mergeCls (.base false rs []) (.base false rs' []) = some s') (r : Nat) (hr : r ≤ Class.maxRune) :
+    s'.mem e false r = (Spec.inRanges rs r || Spec.inRanges rs' r) := by
+  unfold mergeCls at h
+  simp only [addCats] at h
+  split at h
+  · rename_i hemp
+    simp only [Bool.and_eq_true, List.isEmpty_iff] at hemp
+    obtain ⟨rfl, rfl⟩ := hemp
+    simp only [Option.some.injEq] at h
+    subst h
+    simp [Cls.mem, Spec.inRanges, Spec.inNames]
+  · have hcats : (Class.norm2 false (Class.norm1 false
+          ({ ranges := Class.mergeRanges (rs ++ rs'), cats := [] } : Class.Flat))).cats = [] :=
+      norm2_cats_nil false _ (by rw [norm1_cats])
+    · simp only [hcats, List.isEmpty_nil, Bool.not_true, Bool.and_false, Bool.false_and, Bool.false_eq_true, if_false,
+        Option.some.injEq] at h
+      subst h
+      rw [cls_mem_ranges]
+      have h2 := Class.norm2_mem (fun _ _ => false) false (Class.norm1 false
+          ({ ranges := Class.mergeRanges (rs ++ rs'), cats := [] } : Class.Flat)) r hr
+      have h1 := Class.norm1_mem (fun _ _ => false) false
+          ({ ranges := Class.mergeRanges (rs ++ rs'), cats := [] } : Class.Flat) r hr
+      have hflat : ∀ (f : Class.Flat), f.cats = [] →
+          Class.Flat.memAlg (fun _ _ => false) { ranges := f.ranges, cats := [], neg := f.neg } r
+            = Class.Flat.memAlg (fun _ _ => false) f r := by
+        intro f hf
+        simp [Class.Flat.memAlg, Class.Flat.pos, hf]
+      rw [hflat _ hcats, h2, h1]
+      simp only [Class.Flat.memAlg, Class.Flat.pos, Class.inCats_nil, Bool.or_false]
+      rw [Class.mergeRanges_mem _ r hr, spec_inRanges_eq, spec_inRanges_eq]
+      simp [Class.inRanges, List.any_append]
+
+theorem stepChar_mem {e : Env} {rtl : Bool} {pos : Nat} {r pos' : Nat} (h : stepChar e rtl pos = some (r, pos')) :
+    r ∈ e.text := by
+  unfold stepChar at h
+  split at h
+  · split at h
+    · cases h
+    · simp only [Option.map_eq_some_iff, Prod.mk.injEq] at h
+      obtain ⟨a, ha, rfl, _⟩ := h
+      exact List.mem_of_getElem? ha
+  · simp only [Option.map_eq_some_iff, Prod.mk.injEq] at h
+    obtain ⟨a, ha, rfl, _⟩ := h
+    exact List.mem_of_getElem? ha
+
+/-- a test that is the disjoint union of two tests on the runes of the text -/
+theorem m_chr_union (e : Env) (q p1 p2 : Pred)
+    (hu : ∀ r ∈ e.text, q.test e r = (p1.test e r || p2.test e r) ∧ ¬ (p1.test e r = true ∧ p2.test e r = true))
+    (rtl : Bool) (st : St) :
+    m e (.chr q) rtl st = m e (.chr p1) rtl st ++ m e (.chr p2) rtl st := by
+  simp only [m]
+  cases hs : stepChar e rtl st.pos with
+  | none => simp
+  | some x =>
+    obtain ⟨r, pos'⟩ := x
+    obtain ⟨h1, h2⟩ := hu r (stepChar_mem hs)
+    simp only [h1]
+    cases ha : p1.test e r <;> cases hb : p2.test e r <;> simp_all
+
+theorem letterCls_test (e : Env) {p : CP} {s : Cls} (h : letterCls p = some s) (r : Nat) :
+    p.pred.test e r = s.mem e false r := by
+  cases p <;> simp [letterCls] at h
+  case one c =>
+    subst h
+    simp only [CP.pred, Pred.test, Bool.false_eq_true, if_false, Cls.mem, Spec.inRanges, Spec.inNames, List.any_cons, List.any_nil,
+      Bool.or_false, Bool.false_and, bne_iff_ne, ne_eq]
+    by_cases hcr : c = r
+    · subst hcr; simp
+    · have h1 : (c == r) = false := by simpa using hcr
+      rw [h1]
+      by_cases h2 : c ≤ r
+      · have : ¬ r ≤ c := by omega
+        simp [h2, this]
+      · simp [h2]
+  case set s0 => subst h; rfl
+
+theorem clsDisjoint_spec {s0 s1 : Cls} (h : clsDisjoint s0 s1 = true) :
+    ∃ rs rs', s0 = .base false rs [] ∧ s1 = .base false rs' [] ∧
+      ∀ r, ¬ (Spec.inRanges rs r = true ∧ Spec.inRanges rs' r = true) := by
+  unfold clsDisjoint at h
+  split at h
+  · rename_i rs rs'
+    refine ⟨rs, rs', rfl, rfl, ?_⟩
+    intro r ⟨h1, h2⟩
+    simp only [Spec.inRanges, List.any_eq_true, Bool.and_eq_true, decide_eq_true_eq] at h1 h2
+    obtain ⟨a, ha, ha1, ha2⟩ := h1
+    obtain ⟨b, hb, hb1, hb2⟩ := h2
+    simp only [List.all_eq_true, Bool.or_eq_true, decide_eq_true_eq] at h
+    have := h a ha b hb
+    omega
+  · cases h
+
+/-- **merging two letter branches with disjoint, category-free classes keeps the successes** -/
+theorem merge_letters_sound (e : Env) (ht : TextOK e) (h : Bool) (rtl : Bool) (po o : Nat) (p1 p2 : CP) (s0 s1 s' : Cls)
+    (h0 : letterCls p1 = some s0) (h1 : letterCls p2 = some s1) (hd : clsDisjoint s0 s1 = true)
+    (hm : mergeCls s0 s1 = some s') :
+    AEq h e rtl [.chr po (.set s')] [.chr po p1, .chr o p2] := by
+  obtain ⟨rs, rs', rfl, rfl, hdis⟩ := clsDisjoint_spec hd
+  intro st
+  refine LRel.of_eq ?_
+  rw [mA_single, mA_cons, mA_single]
+  simp only [toPat]
+  apply m_chr_union
+  intro r hr
+  have hmem := mergeCls_mem e rs rs' s' hm r (ht r hr)
+  rw [letterCls_test e h0, letterCls_test e h1]
+  have e0 : Cls.mem e false (.base false rs []) r = Spec.inRanges rs r := by simp [Cls.mem, Spec.inNames]
+  have e1 : Cls.mem e false (.base false rs' []) r = Spec.inRanges rs' r := by simp [Cls.mem, Spec.inNames]
+  refine ⟨?_, ?_⟩
+  · simp only [CP.pred, Pred.test]; rw [hmem, e0, e1]
+  · rw [e0, e1]; exact hdis r
+
+theorem merge_bind_spec {pp : CP} {S s : Cls}
+    (hb : ((letterCls pp).bind (fun s0 => if false || clsDisjoint s0 S then mergeCls s0 S else none)) = some s) :
+    ∃ s0, letterCls pp = some s0 ∧ clsDisjoint s0 S = true ∧ mergeCls s0 S = some s := by
+  cases hl : letterCls pp with
+  | none => simp [hl] at hb
+  | some s0 =>
+    simp only [hl, Option.bind_some, Bool.false_or] at hb
+    by_cases hd : clsDisjoint s0 S = true
+    · simp only [hd, if_true] at hb
+      exact ⟨s0, rfl, hd, hb⟩
+    · simp [hd] at hb
+
+theorem aEq_mergeGo (e : Env) (ht : TextOK e) (h rtl : Bool) : ∀ (rest out : List RNode) (w c : Bool),
+    AEq h e rtl (mergeGo false out w c rest) (out ++ rest)
+  | [], out, w, c => by simp [mergeGo]; exact AEq.refl _ _ _ _
+  | nd :: rest, out, w, c => by
+    have hkeep : ∀ w' c', AEq h e rtl (mergeGo false (out ++ [nd]) w' c' rest) (out ++ nd :: rest) := fun w' c' => by
+      have := aEq_mergeGo e ht h rtl rest (out ++ [nd]) w' c'
+      simpa [List.append_assoc] using this
+    have hmerge : ∀ (po o : Nat) (pp p2 : CP) (S s : Cls) (c' : Bool), nd = .chr o p2 → letterCls p2 = some S →
+        out.getLast? = some (.chr po pp) →
+        ((letterCls pp).bind (fun s0 => if false || clsDisjoint s0 S then mergeCls s0 S else none)) = some s →
+        AEq h e rtl (mergeGo false (out.dropLast ++ [.chr po (.set s)]) true c' rest) (out ++ nd :: rest) := by
+      intro po o pp p2 S s c' hnd hS hl hb
+      obtain ⟨s0, h0, hd, hm⟩ := merge_bind_spec hb
+      have hout : out.dropLast ++ [.chr po pp] = out := dropLast_append_of_getLast? hl
+      refine (aEq_mergeGo e ht h rtl rest _ true c').trans ?_
+      rw [List.append_assoc]
+      conv => rhs; rw [← hout, List.append_assoc]
+      refine AEq.append (AEq.refl _ _ _ _) ?_
+      subst hnd
+      exact AEq.append (a' := [.chr po pp, .chr o p2]) (merge_letters_sound e ht h rtl po o pp p2 s0 S s h0 hS hd hm)
+        (AEq.refl _ _ _ _)
+    simp only [mergeGo]
+    split
+    · -- Nothing
+      exact (aEq_mergeGo e ht h rtl rest out w c).trans
+        (AEq.append (AEq.refl _ _ _ _) (AEq.append (a := []) (a' := [.nothing]) (aEq_nothing h e rtl).symm (AEq.refl _ _ _ _)))
+    · -- One
+      rename_i o ch
+      split
+      · exact hkeep _ _
+      · split
+        · rename_i _ _ po pp hl
+          split
+          · rename_i s hb
+            exact hmerge po o pp (.one ch) _ s _ rfl rfl hl hb
+          · exact hkeep _ _
+        · exact hkeep _ _
+    · -- Set
+      rename_i o s1
+      split
+      · exact hkeep _ _
+      · split
+        · rename_i _ _ po pp hl
+          split
+          · rename_i s hb
+            exact hmerge po o pp (.set s1) _ s _ rfl rfl hl hb
+          · exact hkeep _ _
+        · exact hkeep _ _
+    · exact hkeep _ _
+
+theorem aEq_mergeLetters (e : Env) (ht : TextOK e) (h rtl : Bool) (cs : List RNode) :
+    AEq h e rtl (mergeLetters false cs) cs := by
+  unfold mergeLetters
+  have := aEq_mergeGo e ht h rtl (flatAlts cs) [] false false
+  exact (by simpa using this : AEq h e rtl _ (flatAlts cs)).trans (aEq_flatAlts h e rtl cs)
+
 end RegexVerif.RewriteDecisions
